@@ -15,10 +15,12 @@ class UA:
     """upgraded-annotation token of an input parameter: stands for EmptyAnnotation when ``has`` is false,
     else for an annotation wrapper whose source_value() is ``denotes`` (ghost)"""
 
-    def __init__(self, tag, has, denotes):
+    def __init__(self, tag, has, denotes, raw=None, function=None):
         self.tag = tag
         self.has = has
-        self.denotes = denotes
+        self.denotes = denotes      # the object the annotation denotes in the globals of its defining function
+        self.raw = raw              # the raw annotation value (== the parameter's .annotation)
+        self.function = function
 
     def __repr__(self):
         return 'UA(%s)' % self.tag
@@ -84,7 +86,16 @@ def mk_sig(interp, ctx, side, shape, nfuncs=1, annotations=True, tracked=True):
     info = SigInfo()
     info.side = side
     info.shape = shape
-    funcs = [SymRef(z3.Const('f_%s%d' % (side, i), RefS), label='f_%s%d' % (side, i)) for i in range(nfuncs)]
+    from .world import SymFunc
+    # the defining function: a symbolic function object, compiled eagerly or with postponed annotations (symbolic)
+    funcs = [SymFunc(z3.Const('f_%s%d' % (side, i), RefS), label='f_%s%d' % (side, i),
+                     postponed=z3.Bool('postponed_f_%s%d' % (side, i))) for i in range(nfuncs)]
+    info.postponed = funcs[0].postponed
+
+    def den(raw):
+        # ASSUMPTION COMPILER: an eagerly compiled function stores the object, a postponed one the expression,
+        # which denotes evalin(expression, globals(f))
+        return z3.If(funcs[0].postponed, sym.EVALIN(raw, funcs[0].t), raw)
     depth_terms = [z3.Int('depth_%s%d' % (side, i)) for i in range(nfuncs)]
     for dterm in depth_terms:
         ctx.add(dterm >= 0)
@@ -102,7 +113,7 @@ def mk_sig(interp, ctx, side, shape, nfuncs=1, annotations=True, tracked=True):
         if annotations:
             ahas = z3.Bool('ah_%s%s' % (side, tag))
             av = z3.Const('a_%s%s' % (side, tag), ValS)
-            ua = UA('%s%s' % (side, tag), ahas, av)
+            ua = UA('%s%s' % (side, tag), ahas, den(av), raw=av, function=funcs[0])
         else:
             ahas = z3.BoolVal(False)
             av = sym.NONEVAL
@@ -144,7 +155,7 @@ def mk_sig(interp, ctx, side, shape, nfuncs=1, annotations=True, tracked=True):
     rah = z3.Bool('rah_%s' % side) if annotations else z3.BoolVal(False)
     s._d['_return_annotation'] = MV(rah, z3.Const('ra_%s' % side, ValS))
     s._d['sources'] = src
-    s._d['upgraded_return_annotation'] = UA('%s.return' % side, rah, z3.Const('ra_%s' % side, ValS)) if annotations else EmptyAnn
+    s._d['upgraded_return_annotation'] = UA('%s.return' % side, rah, den(z3.Const('ra_%s' % side, ValS)), raw=z3.Const('ra_%s' % side, ValS), function=funcs[0]) if annotations else EmptyAnn
     if tracked:
         sym.mark_input(src, 'sources map of %s' % side)
         sym.mark_input(depths, 'depths map of %s' % side)
@@ -160,7 +171,7 @@ def same_signature_term(a, b):
     """z3 condition 'the two symbolic inputs are the same signature' (None when their shapes differ)"""
     if a.shape != b.shape:
         return None
-    cs = [a.depth_terms[0] == b.depth_terms[0]]
+    cs = [a.depth_terms[0] == b.depth_terms[0], a.postponed == b.postponed]
     for p, q in zip(a.params, b.params):
         for k in ('_default', '_annotation'):
             cs.append(p._d[k].has == q._d[k].has)
